@@ -26,6 +26,7 @@ Leg C  (property oracle)
 from __future__ import annotations
 
 import copy
+import io
 import pickle
 import sys
 import warnings
@@ -718,6 +719,13 @@ def ops_for(rng, x, y, d, all_axes=False):
     yield "conv:asformat(gcxs)", lambda: x.asformat("gcxs"), [], []
     yield "conv:asformat(dok)", lambda: x.asformat("dok"), [], []
     yield "conv:COO(x)", lambda: S.COO(x), [], []
+    if isinstance(x, S.COO):
+        # the copy constructor with a NEW fill value builds another array: the source keeps its own fill value, cache and storage
+        yield "conv:COO(x,fill_value=v)", lambda: (S.COO(x, fill_value=fv + 3), S.COO(x, fill_value=fv + 3).todense()), [], []
+        yield "conv:COO(x,fill_value=v)+ops", lambda: (lambda z: (z + 1, z.reshape((-1,)), z.T))(S.COO(x, fill_value=fv + 5)), [], []
+    yield "io:save_npz", lambda: (lambda b: (S.save_npz(b, x.asformat("coo") if isinstance(x, S.DOK) else x), b.tell()))(io.BytesIO()), [], []
+    yield "io:save_npz(compressed=False)", lambda: (lambda b: (S.save_npz(b, x.asformat("coo") if isinstance(x, S.DOK) else x, compressed=False), b.tell()))(io.BytesIO()), [], []
+    yield "io:save-load", lambda: (lambda b: (S.save_npz(b, x.asformat("coo") if isinstance(x, S.DOK) else x), b.seek(0), S.load_npz(b))[-1])(io.BytesIO()), [], []
     yield "conv:GCXS(x)", lambda: S.GCXS(x), [], []
     yield "conv:DOK(x)", lambda: S.DOK(x) if not isinstance(x, S.GCXS) else S.DOK.from_coo(x.tocoo()), [], []
     yield "conv:as_coo", lambda: S.as_coo(x), [], []
